@@ -30,6 +30,13 @@ def derives_from_arg(t, param):
     return prov.contains(t, lambda x: x == ("param", param))
 
 
+def _rooted(t, param):
+    """the term is the parameter itself or a member / attribute of it (the same mutable object, not a computed copy)"""
+    while t[0] in ("attr", "item"):
+        t = t[1]
+    return t == ("param", param)
+
+
 def mapped_list(g, rn, v, rec_name):
     """`v` denotes [rec(item, ...) for item in obj] spelled as list(<genexp>) or as an append loop"""
     if isinstance(v, ast.Call) and dump(v.func) == "list" and len(v.args) == 1 and isinstance(v.args[0], (ast.GeneratorExp, ast.ListComp)):
@@ -62,6 +69,8 @@ def check(ck):
         # helpers: a parameter is the caller's data unless every call site passes a freshly created object
         callers = q.all_call_sites(prog, lambda r, c, hf=hf: isinstance(r, type(hf)) and r.fq == hf.fq, modules=("jsonclass",))
         for i, p in enumerate(hf.params):
+            if hf.cls is not None and i == 0:
+                continue        # the method's own instance is not the caller's data (escapes into instances are refused below)
             fresh_everywhere = bool(callers)
             for (cf, cn, cc) in callers:
                 a = cc.args[i] if i < len(cc.args) else None
@@ -76,6 +85,11 @@ def check(ck):
                 scan.append((hf, p))
     for fi, param in scan:
         g = cfg_of(fi)
+        for (n, c) in q.call_sites(prog, fi, lambda r, c: isinstance(r, str) and r.startswith("class:jsonclass.")):
+            for a in list(c.args) + [k.value for k in c.keywords]:
+                if any(_rooted(x, param) for x in prov.value_alts(prov.origin(g, n, a))):
+                    raise AnalysisError("the argument of %s escapes into an instance (`%s`): mutation through instance fields is not modelled"
+                                        % (q.fn(fi), dump(c)[:60]))
         for (n, desc, recv) in common.mutations(fi):
             t = prov.origin(g, n, recv)
             if not derives_from_arg(t, param):
